@@ -128,10 +128,10 @@ JoinOps(op) ==
 ---------------------------------------------------------------------------
 \* printer state
 
-NoCur == [a |-> <<>>, v |-> <<>>]       \* pp.arg (non-nil) and pp.value (valid), each <<>> or <<term>>
-CurArg(ps, t) == [ps EXCEPT !.cur = [a |-> IF t.k = "nil" THEN <<>> ELSE <<t>>, v |-> <<>>]]          \* printArg: p.arg = arg; p.value = {}
+NoCur == [a |-> <<>>, v |-> <<>>, ro |-> FALSE]       \* pp.arg (non-nil) and pp.value (valid), each <<>> or <<term>>
+CurArg(ps, t) == [ps EXCEPT !.cur = [a |-> IF t.k = "nil" THEN <<>> ELSE <<t>>, v |-> <<>>, ro |-> FALSE]]          \* printArg: p.arg = arg; p.value = {}
 CurIface(ps, t) == [ps EXCEPT !.cur = [@ EXCEPT !.a = IF t.k = "nil" THEN <<>> ELSE <<t>>]]           \* printValue: p.arg = value.Interface()
-CurValue(ps, t) == [ps EXCEPT !.cur = [a |-> <<>>, v |-> <<t>>]]                                       \* printValue: p.arg = nil; p.value = value
+CurValue(ps, t) == [ps EXCEPT !.cur = [a |-> <<>>, v |-> <<t>>, ro |-> FALSE]]                                       \* printValue: p.arg = nil; p.value = value
 NewPS == [bs |-> BInit, ov |-> "none", erroring |-> FALSE, panicking |-> FALSE, wrapErrs |-> FALSE,
           wrappedErr |-> 0, fl |-> NoFlags, cur |-> NoCur, exc |-> <<>>, rt |-> <<>>, calls |-> <<>>]
 
@@ -192,7 +192,7 @@ IsGoStringer(t)    == HasCap(t, "GS")
 IsStringer(t)      == HasCap(t, "ST") \/ t.k = "builder"
 IsNilRecv(t)       == HasCap(t, "NILP")        \* a typed nil pointer whose methods dereference it
 IsStringKind(t)    == t.k \in {"string", "rstring", "sstr"}
-IsPtrKind(t)       == t.k \in {"ptrto", "nilptr", "map", "slice", "tslice", "tmap", "chan", "func"} \/ IsNilRecv(t)
+IsPtrKind(t)       == t.k \in {"ptrto", "nilptr", "map", "slice", "tslice", "tmap", "chan", "func", "rbytes", "bytes"} \/ IsNilRecv(t)
 
 ---------------------------------------------------------------------------
 RECURSIVE PrintArg(_, _, _), PrintArg2(_, _, _), PrintValue(_, _, _, _, _), PrintElem(_, _, _, _, _), PrintChecked(_, _, _, _, _),
@@ -274,7 +274,7 @@ BadVerb(ps, verb) ==
            b == IF ps.cur.a # <<>>
                 THEN PrintArg(W(Rend(a, "typename", ps.cur.a[1], VS, 0), <<61>>), ps.cur.a[1], VV)
                 ELSE IF ps.cur.v # <<>>
-                THEN PrintValue(W(Rend(a, "typename", ps.cur.v[1], VS, 0), <<61>>), ps.cur.v[1], VV, 0, FALSE)
+                THEN PrintValue(W(Rend(a, "typename", ps.cur.v[1], VS, 0), <<61>>), ps.cur.v[1], VV, 0, ps.cur.ro)
                 ELSE W(a, NilAngle)
        IN IF Exc(b) THEN b ELSE [W(b, <<41>>) EXCEPT !.erroring = FALSE]
 
@@ -484,7 +484,7 @@ PrintElem(ps, e, verb, depth, ro) ==
 
 \* the switch on value.Kind() of printValue; sets pp.arg = nil, pp.value = value first
 PrintKind(ps0, v, verb, depth, ro) ==
-  LET ps == CurValue(ps0, v) IN
+  LET ps == [CurValue(ps0, v) EXCEPT !.cur.ro = ro] IN        \* the reflect.Value remembers how it was obtained
   CASE v.k = "bool"   -> FmtBool(ps, v, verb)
     [] v.k = "int"    -> FmtInteger(ps, v, TRUE, verb)
     [] v.k = "obj"    -> IF IsNilRecv(v) THEN FmtPointer(ps, v, verb)
